@@ -15,7 +15,7 @@ ASSUME = [
 
 def gen_group(seed, g, tier):
     r = core.Rng("c12", seed, g)
-    o = dict(GridSize=r.choice([32, 48, 64, 64, 96]), StepsPerTs=r.choice([50, 100, 200]),
+    o = dict(GridSize=r.choice([32, 48, 64, 65, 96]), StepsPerTs=r.choice([50, 100, 200]),
              rotations=r.choice([0.25, 0.5, 0.375]))
     imp = ["none", "csr", "wall", "csr"][g % 4]          # stratified: every impedance x renormalisation combination appears
     if imp == "none":
